@@ -497,7 +497,9 @@ def main(argv):
         "violations": len(violations) + (1 if (corr_only or proof_broken) and not violations else 0),
     }
     if not replay:
-        json.dump(ev, open(os.path.join(VERIF, "evidence", prop + ".json"), "w"), indent=1)
+        # evidence committed under /verif must come from runs against /repo itself
+        evpath = os.path.join(VERIF, "evidence", prop + ".json") if REPO == "/repo" else os.path.join(rundir0, "evidence.json")
+        json.dump(ev, open(evpath, "w"), indent=1)
     log("%s tier=%s seed=%d theorems=%d/%d cases=%d mismatches=%d rejections=%d known=%d wall=%.1fs exit=%d" % (
         prop, tier, seed, discharged, nthm, ev["coverage"]["evaluations"], len(corr_only), len(violations),
         sum(v["count"] for v in known_hits.values()), time.time() - t0, exit_code))
